@@ -17,6 +17,7 @@ import concurrent.futures as cf
 import json
 import os
 import re
+import time
 
 import vf
 
@@ -54,9 +55,10 @@ def params(pcs=PCS_ALL, hcs=HCS_ALL, srcs=("ingress", "publish"), bes=("memory",
     return consts, plain
 
 
-def run_mc(ctx, name, timeout=900, **kw):
+def run_mc(ctx, name, timeout=900, workers=None, **kw):
     consts, plain = params(**kw)
-    r = vf.mc_run(ctx, name, "FidelityMC", consts, plain, invariants=INVARIANTS, properties=PROPERTIES, view="View", timeout=timeout)
+    r = vf.mc_run(ctx, name, "FidelityMC", consts, plain, invariants=INVARIANTS, properties=PROPERTIES, view="View", timeout=timeout,
+                  workers=workers)
     vf.mc_expect_ok(ctx, r, "FidelityMC/" + name)
     return r
 
@@ -64,14 +66,14 @@ def run_mc(ctx, name, timeout=900, **kw):
 RE_EDGE = re.compile(r'^<<"EDGE", ([01]), "(.*)">>$')
 
 
-def gen(ctx, name, kind, depth=0, simulate=0, timeout=900, **kw):
+def gen(ctx, name, kind, depth=0, simulate=0, timeout=900, workers=None, **kw):
     """Run FidelityGen; returns de-duplicated schedules (lists of op dicts).
     kind = tour | edges | sim."""
     kw = dict(kw)
     kw["tour"] = kind == "tour"
     consts, plain = params(**kw)
     plain["GenDepth"] = depth if kind == "sim" else 0
-    extra, workers, view = [], vf.NCPU, ("ViewT" if kind == "tour" else "View")
+    extra, workers, view = [], workers or vf.NCPU, ("ViewT" if kind == "tour" else "View")
     if kind == "sim":
         extra = ["-simulate", "num=%d" % simulate, "-depth", str(depth + 1), "-seed", str(ctx.seed)]
         workers, view = 1, None
@@ -132,13 +134,34 @@ def execute(ctx, scheds, tag, procs=None, timeout=1500):
     return sf, [o for o in outs if os.path.exists(o) and os.path.getsize(o) > 0]
 
 
+def merge(ctx, files, k):
+    """Concatenate the per-process trace files into at most k files of similar size (journeys stay contiguous)."""
+    files = sorted(files, key=os.path.getsize, reverse=True)
+    k = max(1, min(k, len(files)))
+    outs = [os.path.join(ctx.shm, "merged.%d" % i) for i in range(k)]
+    sizes = [0] * k
+    handles = [open(o, "wb") for o in outs]
+    for f in files:
+        i = sizes.index(min(sizes))
+        with open(f, "rb") as src:
+            while True:
+                buf = src.read(1 << 20)
+                if not buf:
+                    break
+                handles[i].write(buf)
+        sizes[i] += os.path.getsize(f)
+    for h in handles:
+        h.close()
+    return outs
+
+
 def validate(ctx, files, tag):
     return vf.tv_run(ctx, files, module="FidelityTrace", name="tv-" + tag, props=("file.encoding=UTF-8",), timeout=1500)
 
 
 # ------------------------------------------------------------------ triage
 
-PAYLOAD_CHECKS = {"payload", "encoding", "dump_payload", "stored_payload", "oversize"}
+PAYLOAD_CHECKS = {"payload", "encoding", "dump_payload", "stored_payload", "oversize", "companion"}
 HEADER_CHECKS = {"headers", "dump_headers", "stored_headers", "sensitive", "dump_sensitive", "stored_sensitive", "pushhdr",
                  "persisted_secret"}
 STORE_CHECKS = {"dump_count", "dump_payload", "dump_headers", "dump_sensitive", "stored_count", "stored_payload", "stored_headers",
@@ -167,6 +190,8 @@ def signature(check, e, start):
         channel = "push"
     else:
         channel = ev.lower()
+    if check == "companion":
+        return "fidelity/companion/%s/batch-%s" % (channel, c["be"])
     if check in HEADER_CHECKS:
         cls = c["hc"]
     elif check in PAYLOAD_CHECKS or c["hc"] in ("plain", "none"):
@@ -306,6 +331,11 @@ def tally(ctx, files):
                     C["obs_src/%s/%s" % (c["src"], ch)] += 1
                     if after_restart:
                         C["observed_after_restart"] += 1
+                    if ev in ("Deq", "Push"):
+                        b = e["a"].get("b", "one")
+                        if b == "pair" and e["r"]["k"]["n"] < 1:
+                            b = "pair-missed"
+                        C["batch/%s/%s/%s" % (b, ch, c["be"])] += 1
                     if ev == "Deq":
                         if e["r"]["att"] >= 2:
                             C["redelivered_pull"] += 1
@@ -357,6 +387,9 @@ def non_vacuity(ctx, C, pcs):
     require(C, ["obs_hc/%s/%s" % (h, ch) for h in HCS_ALL if h not in OVER_HCS for ch in ("http", "grpc", "push", "admin-messages")],
             "header class x channel")
     require(C, ["obs_src/%s/%s" % (s, ch) for s in ("ingress", "publish") for ch in ("http", "grpc", "push")], "source x channel")
+    require(C, ["batch/%s/%s/%s" % (b, ch, be) for be in ("memory", "sqlite") for (b, ch) in
+                (("one", "http"), ("one", "grpc"), ("alone", "http"), ("alone", "inproc"), ("pair", "http"), ("pair", "grpc"),
+                 ("pair", "inproc"), ("alone", "push"), ("pair", "push"))], "store read path (batch 1 / batch alone / batch pair)")
     require(C, ["restart_with_message", "observed_after_restart", "redelivered_pull", "redelivered_push", "redelivered_after_expiry",
                 "lease_expired", "dlq_requeue", "push_after_dlq_requeue", "inproc_result_scribbled", "copy_collision",
                 "forward_auth_called", "refused_nothing_stored", "scan_with_secrets/sqlite", "scan_with_secrets/memory"],
@@ -389,39 +422,50 @@ def run(ctx):
     vf.build_tool(TOOL)
     quick = ctx.quick
     pcs = PCS_QUICK if quick else PCS_ALL
-    # ---- MC
+    # ---- MC and GEN: independent TLC runs, side by side
+    w = max(2, vf.NCPU // 2)
+    jobs = []
     if quick:
-        run_mc(ctx, "all-inputs", pcs=PCS_ALL, maxdeq=2, maxatt=2, maxrs=1)
+        jobs.append(("mc", lambda: run_mc(ctx, "all-inputs", pcs=PCS_ALL, maxdeq=2, maxatt=2, maxrs=1, workers=w)))
+        jobs.append(("tour", lambda: gen(ctx, "tour", "tour", pcs=pcs, star=True, maxdeq=7, maxatt=5, maxrs=2, workers=4)))
+        jobs.append(("edges", lambda: gen(ctx, "edges", "edges", pcs=["all256"], hcs=["plain", "sensmix"], vias=["handler"],
+                                          maxdeq=2, maxatt=2, maxrs=1, workers=4)))
+        jobs.append(("sim", lambda: gen(ctx, "sim", "sim", depth=14, simulate=150, pcs=pcs, free=True, maxdeq=8, maxatt=8, maxrs=3,
+                                        minend=3)))
     else:
-        run_mc(ctx, "all-inputs-free", pcs=PCS_ALL, free=True, maxdeq=3, maxatt=3, maxrs=2, timeout=1200)
-    # ---- GEN
-    plans = []
-    if quick:
-        plans.append(("tour", gen(ctx, "tour", "tour", pcs=pcs, star=True, maxdeq=6, maxatt=5, maxrs=2)))
-        plans.append(("edges", gen(ctx, "edges", "edges", pcs=["empty", "all256"], hcs=["plain", "sensmix"], vias=["handler"],
-                                   maxdeq=2, maxatt=2, maxrs=1)))
-        plans.append(("sim", gen(ctx, "sim", "sim", depth=14, simulate=150, pcs=pcs, free=True, maxdeq=8, maxatt=8, maxrs=3, minend=3)))
-    else:
-        plans.append(("tour", gen(ctx, "tour", "tour", pcs=pcs, star=False, maxdeq=6, maxatt=5, maxrs=2)))
-        plans.append(("tourfree", gen(ctx, "tourfree", "tour", pcs=["text", "all256", "empty"], hcs=["plain", "sensmix", "repcase", "values2"],
-                                      free=True, maxdeq=6, maxatt=5, maxrs=2)))
-        plans.append(("edges", gen(ctx, "edges", "edges", pcs=["empty", "all256", "max", "big"],
-                                   hcs=["plain", "sensmix", "collide", "values2", "hmax"], maxdeq=2, maxatt=2, maxrs=1)))
-        plans.append(("sim", gen(ctx, "sim", "sim", depth=24, simulate=1500, pcs=pcs, free=True, maxdeq=12, maxatt=12, maxrs=4, minend=4)))
-    # ---- EXE + TV
-    all_files = []
+        jobs.append(("mc", lambda: run_mc(ctx, "all-inputs-free", pcs=PCS_ALL, free=True, maxdeq=3, maxatt=3, maxrs=2, timeout=1500,
+                                          workers=w)))
+        jobs.append(("tour", lambda: gen(ctx, "tour", "tour", pcs=pcs, star=False, free=True, maxdeq=7, maxatt=5, maxrs=2, workers=4,
+                                         timeout=1500)))
+        jobs.append(("edges", lambda: gen(ctx, "edges", "edges", pcs=["empty", "all256", "max", "big"],
+                                          hcs=["plain", "sensmix", "collide", "values2", "hmax"], maxdeq=2, maxatt=2, maxrs=1, workers=4,
+                                          timeout=1500)))
+        jobs.append(("sim", lambda: gen(ctx, "sim", "sim", depth=24, simulate=2000, pcs=pcs, free=True, maxdeq=12, maxatt=12, maxrs=4,
+                                        minend=4, timeout=1500)))
+    with cf.ThreadPoolExecutor(max_workers=len(jobs)) as ex:
+        futs = [(tag, ex.submit(fn)) for tag, fn in jobs]
+        outs = [(tag, f.result()) for tag, f in futs]
+    plans = [(tag, r) for tag, r in outs if tag != "mc"]
+    # ---- EXE (all plans), then TV over a few merged trace files (one JVM start per file)
+    all_files, all_scheds = [], []
     for tag, scheds in plans:
+        t0 = time.time()
         sf, files = execute(ctx, scheds, tag)
-        res = validate(ctx, files, tag)
+        ctx.cov["mc_runs"].append({"name": "exe-" + tag, "schedules": len(scheds), "secs": round(time.time() - t0, 1)})
         all_files += files
+        all_scheds += scheds
         if len(ctx.cov["samples"]) < 2:
             s = sample_journey(files)
             if s:
                 s["generated_by"] = "TLC " + tag
                 ctx.sample(s)
-        triage(ctx, res, scheds)
+    t0 = time.time()
+    merged = merge(ctx, all_files, 6 if quick else vf.NCPU)
+    res = validate(ctx, merged, "all")
+    ctx.cov["mc_runs"].append({"name": "tv", "files": len(merged), "events": sum(r["total"] for r in res), "secs": round(time.time() - t0, 1)})
+    triage(ctx, res, all_scheds)
     # ---- non-vacuity
-    C = tally(ctx, all_files)
+    C = tally(ctx, merged)
     non_vacuity(ctx, C, pcs)
     shared = sum(v for k, v in C.items() if k.startswith("store_dequeue_alias/") and k.endswith("/shared"))
     if shared:
